@@ -21,10 +21,16 @@ Proved for ALL streams, ALL partitions into blocks, ALL edge/level/auto settings
   `C02_block_auto_in_range`.
 * `C02_level_complete`       the level clause across blocks (invariant `LevelInv`): every level crossing is
                              a trigger or within one record before/after an emitted trigger.
-Not yet proved across blocks (kept visible as a `Prop`, judged at run time by the oracle `chkC02` on
-the real code): `C02_auto_gap_full`.
+* `C02_auto_gap`             the auto clause across blocks (invariant `AutoInv`, Lemmas/AutoGlobal): with auto
+                             trigger and no veto the trigger frames of the whole run are ascending and
+                             neighbours are at most `delay + nsamp` apart (`delay` = auto delay, or one
+                             record if longer); window form `C02_auto_dense`; after a reconfiguration
+                             `C02_auto_gap_after_reconfigure`.
+With a veto the auto clause does not apply (the property says "no veto"); the veto path is covered by
+`C02_block_auto_in_range` (no crash, in range) and judged at run time by the oracle `chkC02`.
 -/
 import DastardV.Lemmas.LevelGlobal
+import DastardV.Lemmas.AutoGlobal
 namespace DastardV.C02
 open Trig
 
@@ -146,7 +152,7 @@ theorem C02_block_auto_in_range (c : Chan) (hv : ValidLen c) (found : List Int)
     ∃ res, autoPass c found = some res ∧ ∀ x ∈ res, c.npre ≤ x ∧ x < hiOf c :=
   autoPass_some hv hr
 
-/-! ### The level clause across blocks, and the statement not yet proved across blocks -/
+/-! ### The level clause across blocks -/
 
 theorem fresh_level_inv {c : Chan} {ts : TS} {npre nsamp f0 : Int} (sg : Bool) (hv : 3 ≤ npre ∧ npre < nsamp)
     (h : Fresh c ts npre nsamp f0) : LevelInv ts npre nsamp sg 0 [] f0 c [] 0 := by
@@ -173,12 +179,63 @@ theorem C02_level_complete {c c' : Chan} {ts : TS} {npre nsamp f0 per : Int} {sg
   intro p h1 h2 h3
   exact hinv.covered p (by simpa using h1) (by omega) h3
 
-def C02_auto_gap_full : Prop :=
-  ∀ (c c' : Chan) (ts : TS) (npre nsamp f0 per : Int) (sg : Bool) (zt : ZT),
-    3 ≤ npre ∧ npre < nsamp → ts.edgeMulti = false → ts.auto = true → ts.autoVeto = 0 → Fresh c ts npre nsamp f0 →
-    ∀ (segs : List (List Nat)) (tr : List Int), runChan zt per sg c f0 segs = some (c', tr) →
-    let delay := if ts.autoDelay < nsamp then nsamp else ts.autoDelay
-    (∀ a b, [a, b] <:+: tr → b - a ≤ delay + nsamp)
+/-! ### The auto clause across blocks -/
+
+theorem fresh_auto_inv {c : Chan} {ts : TS} {npre nsamp f0 : Int} (sg : Bool)
+    (h : Fresh c ts npre nsamp f0) : AutoInv ts npre nsamp sg [] f0 c [] 0 := by
+  obtain ⟨hbuf, hts, hnpre, hnsamp, hsync, _⟩ := h
+  exact ⟨by simp, by simp [hbuf], ⟨hts, hnpre, hnsamp, hsync, Or.inr hbuf⟩, by simp, by simp, by simp,
+    by simp, by simp, by simp⟩
+
+/-- **Auto trigger without veto, window form, from the first block after a start**: from the first
+trigger on, every window of `delay + nsamp` consecutive frames that ends at or before the newest
+trigger contains a trigger (`delay` = the auto delay, or one record if that is longer) — for all
+streams, all block partitions, auto alone or combined with edge and level triggers. -/
+theorem C02_auto_dense {c c' : Chan} {ts : TS} {npre nsamp f0 per : Int} {sg : Bool} {zt : ZT}
+    (hv : 3 ≤ npre ∧ npre < nsamp) (hem : ts.edgeMulti = false) (hauto : ts.auto = true) (hveto : ts.autoVeto = 0)
+    (hfresh : Fresh c ts npre nsamp f0) (segs : List (List Nat)) {tr : List Int}
+    (hrun : runChan zt per sg c f0 segs = some (c', tr)) :
+    (∀ T ∈ tr, T ≤ c'.lastTrig) ∧ (tr ≠ [] → c'.lastTrig ∈ tr) ∧
+    ∀ y, y ≤ c'.lastTrig → (∃ T ∈ tr, T ≤ y) → ∃ T ∈ tr, y - (autoD ts nsamp + nsamp) < T ∧ T ≤ y := by
+  have h0 := fresh_auto_inv sg hfresh
+  obtain ⟨k', hinv⟩ := runChan_auto_inv hv hem hauto hveto segs [] c [] 0 c' tr h0 (by simpa using hrun)
+  rw [List.nil_append, List.nil_append] at hinv
+  exact ⟨hinv.newest, hinv.last, hinv.dense⟩
+
+/-- **Auto trigger without veto: the gap between successive triggers never exceeds the auto delay (or
+one record, if longer) plus one record** — the emitted trigger frames are ascending and any two
+neighbours `a, b` of the whole run's trigger sequence satisfy `b − a ≤ delay + nsamp`; for all streams,
+all block partitions (any lengths, empty blocks included), auto alone or combined with edge and level. -/
+theorem C02_auto_gap {c c' : Chan} {ts : TS} {npre nsamp f0 per : Int} {sg : Bool} {zt : ZT}
+    (hv : 3 ≤ npre ∧ npre < nsamp) (hem : ts.edgeMulti = false) (hauto : ts.auto = true) (hveto : ts.autoVeto = 0)
+    (hfresh : Fresh c ts npre nsamp f0) (segs : List (List Nat)) {tr : List Int}
+    (hrun : runChan zt per sg c f0 segs = some (c', tr)) :
+    ∀ a b, [a, b] <:+: tr → a ≤ b ∧ b - a ≤ autoD ts nsamp + nsamp := by
+  have h0 := fresh_auto_inv sg hfresh
+  obtain ⟨k', hinv⟩ := runChan_auto_inv hv hem hauto hveto segs [] c [] 0 c' tr h0 (by simpa using hrun)
+  rw [List.nil_append, List.nil_append] at hinv
+  intro a b hab
+  exact gap_of_dense hinv.sorted hinv.newest hinv.dense hab
+
+/-- the same **after a reconfiguration at any point of the stream** (the channel as
+`configureTrigger` leaves it — `configureTrigger_epoch` — with whatever the buffer retains) -/
+theorem C02_auto_gap_after_reconfigure {c c' : Chan} {ts : TS} {npre nsamp f0 per : Int} {sg : Bool}
+    {zt : ZT} {G : List Nat} {k : Nat}
+    (hv : 3 ≤ npre ∧ npre < nsamp) (hem : ts.edgeMulti = false) (hauto : ts.auto = true) (hveto : ts.autoVeto = 0)
+    (hk : k ≤ G.length) (hbuf : c.buf = G.drop k) (hts : c.ts = ts) (hnpre : c.npre = npre)
+    (hnsamp : c.nsamp = nsamp) (hsync : c.emt.nsamp = nsamp) (hsg : c.signed = sg)
+    (segs : List (List Nat)) {tr : List Int}
+    (hrun : runChan zt per sg c (f0 + G.length) segs = some (c', tr)) :
+    ∀ a b, [a, b] <:+: tr → a ≤ b ∧ b - a ≤ autoD ts nsamp + nsamp := by
+  have h0 : AutoInv ts npre nsamp sg G f0 c [] k :=
+    ⟨hk, hbuf, ⟨hts, hnpre, hnsamp, hsync, Or.inl hsg⟩, by simp, by simp, by simp, by simp, by simp, by simp⟩
+  obtain ⟨k', hinv⟩ := runChan_auto_inv hv hem hauto hveto segs G c [] k c' tr h0 hrun
+  rw [List.nil_append] at hinv
+  intro a b hab
+  exact gap_of_dense hinv.sorted hinv.newest hinv.dense hab
+
+/-- the effective delay is the configured one, or one record if that is longer -/
+theorem autoD_def (ts : TS) (nsamp : Int) : autoD ts nsamp = if ts.autoDelay < nsamp then nsamp else ts.autoDelay := rfl
 
 /-! ### Non-vacuity -/
 
